@@ -1471,6 +1471,14 @@ impl Database {
                 }
 
                 let value = cursor.value()?;
+
+                // tombstone left by an earlier DELETE: not a visible row
+                if value.len() >= crate::mvcc::RecordHeader::SIZE
+                    && crate::mvcc::RecordHeader::from_bytes(value).is_deleted()
+                {
+                    cursor.advance()?;
+                    continue;
+                }
                 let user_data = get_user_data(value);
                 let values = decoder.decode(key, user_data)?;
                 let mut row_values: Vec<OwnedValue> =
@@ -2202,6 +2210,14 @@ impl Database {
         while cursor.valid() {
             let key = cursor.key()?;
             let value = cursor.value()?;
+
+            // tombstone left by an earlier DELETE: not a visible row
+            if value.len() >= crate::mvcc::RecordHeader::SIZE
+                && crate::mvcc::RecordHeader::from_bytes(value).is_deleted()
+            {
+                cursor.advance()?;
+                continue;
+            }
 
             let user_data = get_user_data(value);
             let values = decoder.decode(key, user_data)?;
